@@ -870,7 +870,7 @@ impl World for C18 {
             real_components: vec!["evaluator instrumentation (before_stmt, bytecode statement locations)", "all ProfileModes and gen_profile", "DAP adapter (prepare_dap_adapter, resolve_breakpoints, with_ctx/inject channel protocol, evaluate re-entering the evaluator)"],
             stub_components: vec!["debugger client (DapAdapterClient + request script drawn from the seed)", "statement hook (counting)"],
             assumptions: vec![
-                "Over/Out stepping is only checked for non-interference (the code documents their approximation)",
+                "Over/Out stepping follows the adapter's documented approximation: the next statement START with a call stack not deeper (over) / shallower (out) than at the request",
                 "variables(0) at a stop inside a def must contain the marker's arguments with str() equal to the emitted repr for ints",
             ],
             exhaustive: false,
